@@ -624,6 +624,40 @@ def u_reject_warm_unfitted(cfg):
     return Unit(cfg.name + '.reject-warm-unfitted', body, on_raise=lambda I, st, r: r.kind == 'ValueError')
 
 
+
+# ------------------------------------------------------------------ C01 threshold clause: one pick under a score threshold
+def u_pick_threshold(thr, first_known):
+    """GreedySelector._get_best_new_selection on an arbitrary score vector: the search stops (None) exactly when the best score is below the
+    (absolute / relative-to-the-first-score) threshold, otherwise the arg-max is returned; the first score is recorded by the first call only"""
+    cfg = Cfg('FPS', 'sample', thr=thr)
+    def body(I):
+        ctx = build_selector(I, cfg); I.cur = ctx
+        me = ctx['me']; o = I.O(me); N = ctx['N']; cls = ctx['cls']
+        o.attrs['_axis'] = 0
+        scores = I.fresh_arr('scores', (N,)); S = I.A(scores).elem
+        first0 = I.fresh('first_score', RealS) if first_known else None
+        o.attrs['first_score_'] = first0
+        if thr == 'relative':
+            I.assume(ForAll([j_], S(j_) >= 0, patterns=[S(j_)]))
+            if first_known: I.assume(first0 > 0)
+        thrv = tz(o.attrs['score_threshold'])
+        scorer = lambda I2, X, y: scores
+        r = I.call_func(I.find_method(cls, '_get_best_new_selection'), [me, scorer, ctx['X'], None], {})
+        o = I.O(me)
+        j = I.fresh('j', IntS); I.assume(And(0 <= j, j < N))
+        best = I.fresh('best', RealS)
+        I.assume(And(ForAll([j_], Implies(And(0 <= j_, j_ < N), S(j_) <= best), patterns=[S(j_)]), Exists([j_], And(0 <= j_, j_ < N, S(j_) == best))))      # best = the largest score
+        first = first0 if first_known else best
+        stop = (best < thrv) if thr == 'absolute' else (best / first < thrv)
+        if thr == 'relative' and not first_known: I.assume(best > 0)        # a relative threshold needs a positive first score
+        if r is None:
+            I.ob('post[C01]:the-search-stops-only-when-the-best-score-is-below-the-threshold', stop, kind='post')
+        else:
+            I.ob('post[C01]:a-pick-is-made-only-when-the-best-score-is-at-or-above-the-threshold', Not(stop), kind='post')
+            I.ob('post[C01]:the-pick-has-the-best-score', And(0 <= tz(r), tz(r) < N, S(tz(r)) == best), kind='post')
+        I.ob('post[C01]:the-first-score-is-recorded-by-the-first-call-and-kept-afterwards', to_real(tz(o.attrs['first_score_'])) == first, kind='post')
+    return Unit(f'GreedySelector._get_best_new_selection[thr={thr},{"later-call" if first_known else "first-call"}]', body, functions=[SEL + '.GreedySelector._get_best_new_selection'])
+
 # ------------------------------------------------------------------ C08: history independence by self-composition
 # Abstraction A(self) = the state modulo buffer capacity.  Three per-function relational obligations:
 #   (a) _init_greedy_search: A does not depend on the requested size
